@@ -5,7 +5,7 @@ of `reduce()`:
 * `listOpSem E : OpSem V`, `listArithSem E : ArithSem V`  — `den := den E`, `mem s x := x.length = s.size`,
   `smul := vsmul`, `add := vadd`, `zero := []`, `invertible := invertibleG E`;
 * `listLeafOK`           — validity of the leaf parameters, class by class (what the Python constructors accept);
-  `toeplitzOK` — a Toeplitz leaf with an un-batched band (the ones the denotation interprets by the kernel);
+  `toeplitzOK` — a Toeplitz leaf, batched band or not (the ones the denotation interprets by the kernel);
 * `listRuleLaws E : RuleLaws (listArithSem E)`, `listContainerLaws E : ContainerLaws …`;
 * `reduce_sound_closed`, `reduceTop_sound_closed` — no semantic hypothesis is left: only the syntactic
   well-formedness of the input expression and the environment `E` of the uninterpreted leaves;
@@ -219,22 +219,57 @@ def diagonalOK (p : Params) : Prop :=
     Diagonal.apply true (castT p.vals) (.seq (p.ints.getD 0 [])) (⟨l.shape, c⟩ : Tensor ℝ) = .ok y ∧
     y.shape = l.shape
 
-/-- `SymmetricBandToeplitzOperator(band_values, in_structure)` with an UN-BATCHED band: `band_values` is a
-well-formed array of shape `[K]` with `K ≥ 1` bands (as many values as the shape says), and every leaf of the input
-structure has rank `≥ 1` (the operator acts along the last axis of every leaf).  `K` may exceed the length of the
-last axis.  The method string (`p.str`) and the FFT size (`p.ints`) do not matter: all the evaluation methods
-compute the same banded product (C09, FuraxProofs/Sem/ToeplitzList.lean). -/
+/-- `SymmetricBandToeplitzOperator(band_values, in_structure)`: `band_values` is a well-formed array of shape
+`bs ++ [K]` — `K ≥ 1` bands along the last axis, `bs` the batch axes (`bs = []`: one band for all rows; in practice
+`bs = [ndet]`: one band row per detector) — with as many values as the shape says; every leaf of the input structure
+has rank `≥ 1` (the operator acts along the last axis of every leaf) and **the batch axes `bs` broadcast TO the
+leading axes of the leaf** (`Bc`, NumPy rules, right-aligned: the rank of `bs` is at most that of the leading axes and
+every dimension of `bs` is `1` or the dimension it is aligned with).  This is what `jnp.vectorize` needs for `mv` to
+return an array of the shape of its input: with incompatible dimensions it raises, and when `bs` only broadcasts
+WITH the leading axes (a longer `bs`, or a dimension `> 1` facing a `1`) `mv` returns a LARGER array than
+`in_structure` says (observed on the Python code, see REPORT.md).  (The Python `mv` only works when `in_structure`
+is a bare array — one leaf; the denotation and this predicate are stated leaf by leaf for any number of leaves, the
+one-leaf structure being the case Python reaches.)  `K` may exceed the length of the last axis.  The
+method string (`p.str`) and the FFT size (`p.ints`) do not matter: all the evaluation methods compute the same
+banded product (C09, FuraxProofs/Sem/ToeplitzList.lean). -/
 def toeplitzOK (p : Params) : Prop :=
+  ∃ bs K, 1 ≤ K ∧ p.vals.shape = bs ++ [K] ∧ p.vals.data.length = prodNat bs * K ∧
+    ∀ l ∈ p.inS.leaves, l.shape ≠ [] ∧ Bc bs l.shape.dropLast
+
+/-- the validity of a Toeplitz leaf with an UN-BATCHED band (`band_values.shape = [K]`), as it was stated before the
+denotation interpreted batched bands: a special case of `toeplitzOK` (`toeplitzUnbatchedOK_iff`) -/
+def toeplitzUnbatchedOK (p : Params) : Prop :=
   (∃ K, 1 ≤ K ∧ p.vals.shape = [K] ∧ p.vals.data.length = K) ∧ ∀ l ∈ p.inS.leaves, l.shape ≠ []
 
+theorem Bc_nil (S : List Nat) : Bc [] S := ⟨Nat.zero_le _, fun j hj => absurd hj (Nat.not_lt_zero j)⟩
+
+theorem toeplitzOK_of_unbatched {p : Params} (h : toeplitzUnbatchedOK p) : toeplitzOK p := by
+  obtain ⟨⟨K, hK, hs, hd⟩, hr⟩ := h
+  exact ⟨[], K, hK, by simpa using hs, by simpa [prodNat] using hd, fun l hl => ⟨hr l hl, Bc_nil _⟩⟩
+
+/-- the un-batched validity is the general one plus "the band array has rank 1" -/
+theorem toeplitzUnbatchedOK_iff (p : Params) : toeplitzUnbatchedOK p ↔ toeplitzOK p ∧ p.vals.shape.length = 1 := by
+  constructor
+  · intro h
+    refine ⟨toeplitzOK_of_unbatched h, ?_⟩
+    obtain ⟨⟨K, _, hs, _⟩, _⟩ := h
+    rw [hs]; rfl
+  · rintro ⟨⟨bs, K, hK, hs, hd, hr⟩, h1⟩
+    have hbs : bs = [] := by
+      rw [hs, List.length_append] at h1
+      exact List.eq_nil_of_length_eq_zero (by simpa using h1)
+    subst hbs
+    exact ⟨⟨K, hK, by simpa using hs, by simpa [prodNat] using hd⟩, fun l hl => (hr l hl).1⟩
+
 theorem toeplitzOK.toepK {p : Params} (h : toeplitzOK p) : ∃ K, 1 ≤ K ∧ toepK p.vals = some K := by
-  obtain ⟨⟨K, hK, hs, _⟩, _⟩ := h
+  obtain ⟨bs, K, hK, hs, _⟩ := h
   exact ⟨K, hK, by simp [ListSem.toepK, hs]⟩
 
 /-- **validity of the leaf parameters**, class by class: what the Python constructors accept.  The classes no rule
 looks into (identity, scalar, broadcasting diagonal, dense, observation matrix, opaque) are not constrained; a
-Toeplitz leaf whose band array is one-dimensional (the case the denotation interprets by the kernel, `toepK`) is
-`toeplitzOK`, one with a batched band (left to the environment) is not constrained. -/
+Toeplitz leaf whose band array has a last axis (rank `≥ 1`, batched or not: the case the denotation interprets by the
+kernel, `toepK`) is `toeplitzOK`; the degenerate one with a rank-0 band array (left to the environment; Python
+refuses it) is not constrained. -/
 def listLeafOK : LeafCls → Params → Prop
   | .toeplitz, p => toepK p.vals ≠ none → toeplitzOK p
   | .moveAxis, p => moveAxisOK p
